@@ -3,33 +3,98 @@
 // Contracts for the verification machinery in /verif (comment-only; compiled only with -tags verif).
 package types
 
+
+// ---------------------------------------------------------------- abstract store (used by the keeper contracts)
+//
+// The byte-level contracts and lemmas below (property C18) license the abstraction functions ent_key / ent_prefix;
+// clauses marked `abstracts` state them and are NOT checked against the bodies (listed as abstraction steps).
+
+//@ prelude
+//@ ;;@ need-type github.com/unification-com/mainchain/x/enterprise/types.EnterpriseUndPurchaseOrder
+//@ ;;@ need-type github.com/unification-com/mainchain/x/enterprise/types.LockedUnd
+//@ ;;@ need-type github.com/unification-com/mainchain/x/enterprise/types.SpentEFUND
+//@ ;;@ need-type github.com/unification-com/mainchain/x/enterprise/types.Params
+//@ ;;@ need-type github.com/unification-com/mainchain/x/enterprise/types.WhitelistAddresses
+//@ ;;@ need-marshal github.com/unification-com/mainchain/x/enterprise/types.EnterpriseUndPurchaseOrder
+//@ ;;@ need-marshal github.com/unification-com/mainchain/x/enterprise/types.LockedUnd
+//@ ;;@ need-marshal github.com/unification-com/mainchain/x/enterprise/types.SpentEFUND
+//@ ;;@ need-marshal github.com/unification-com/mainchain/x/enterprise/types.Params
+//@ ;;@ need-marshal github.com/cosmos/cosmos-sdk/types.Coin
+//@ (declare-datatypes ((enterprise.Key 0)) (((kPO (kPO.id Int)) (kLocked (kLocked.a BytesV)) (kWhitelist (kWhitelist.a BytesV)) (kRaised (kRaised.id Int)) (kAccepted (kAccepted.id Int)) (kSpent (kSpent.a BytesV)) (kEParams) (kEHighest) (kTotalSpent) (kTotalLocked) (kOtherE (kOtherE.n Int)))))
+//@ (declare-fun ent_key ((Slice Int)) enterprise.Key)
+//@ (define-fun entParamsSet ((s (Array enterprise.Key (Slice Int)))) Bool (not (sl.nil (select s kEParams))))
+//@ (define-fun entParams ((s (Array enterprise.Key (Slice Int)))) enterprise.Params (unmarshal.enterprise.Params (select s kEParams)))
+//@ (define-fun entParamsPut ((s (Array enterprise.Key (Slice Int))) (p enterprise.Params)) (Array enterprise.Key (Slice Int)) (store s kEParams (marshal.enterprise.Params p)))
+//@ (define-fun entDenom ((s (Array enterprise.Key (Slice Int)))) Str (enterprise.Params.Denom (entParams s)))
+//@ ; locked eFUND per account (absent = zero)
+//@ (define-fun lockedHas ((s (Array enterprise.Key (Slice Int))) (a BytesV)) Bool (not (sl.nil (select s (kLocked a)))))
+//@ (define-fun lockedRec ((s (Array enterprise.Key (Slice Int))) (a BytesV)) enterprise.LockedUnd (unmarshal.enterprise.LockedUnd (select s (kLocked a))))
+//@ (define-fun lockedAmt ((s (Array enterprise.Key (Slice Int))) (a BytesV)) Int (ite (lockedHas s a) (Amt (enterprise.LockedUnd.Amount (lockedRec s a))) 0))
+//@ (define-fun lockedPut ((s (Array enterprise.Key (Slice Int))) (a BytesV) (r enterprise.LockedUnd)) (Array enterprise.Key (Slice Int)) (store s (kLocked a) (marshal.enterprise.LockedUnd r)))
+//@ (define-fun spentHas ((s (Array enterprise.Key (Slice Int))) (a BytesV)) Bool (not (sl.nil (select s (kSpent a)))))
+//@ (define-fun spentRec ((s (Array enterprise.Key (Slice Int))) (a BytesV)) enterprise.SpentEFUND (unmarshal.enterprise.SpentEFUND (select s (kSpent a))))
+//@ (define-fun spentAmt ((s (Array enterprise.Key (Slice Int))) (a BytesV)) Int (ite (spentHas s a) (Amt (enterprise.SpentEFUND.Amount (spentRec s a))) 0))
+//@ (define-fun spentPut ((s (Array enterprise.Key (Slice Int))) (a BytesV) (r enterprise.SpentEFUND)) (Array enterprise.Key (Slice Int)) (store s (kSpent a) (marshal.enterprise.SpentEFUND r)))
+//@ (define-fun coinOfBytes ((b (Slice Int))) sdk.Coin (unmarshal.sdk.Coin b))
+//@ (define-fun coinBytes ((c sdk.Coin)) (Slice Int) (marshal.sdk.Coin c))
+//@ (define-fun totalLockedAmt ((s (Array enterprise.Key (Slice Int)))) Int (ite (sl.nil (select s kTotalLocked)) 0 (Amt (coinOfBytes (select s kTotalLocked)))))
+//@ (define-fun totalSpentAmt ((s (Array enterprise.Key (Slice Int)))) Int (ite (sl.nil (select s kTotalSpent)) 0 (Amt (coinOfBytes (select s kTotalSpent)))))
+//@ ; sums over all accounts: axiomatised (standard update axiom)
+//@ (declare-fun lockSum ((Array enterprise.Key (Slice Int))) Int)
+//@ (declare-fun spentSum ((Array enterprise.Key (Slice Int))) Int)
+//@ (assert (forall ((s (Array enterprise.Key (Slice Int))) (k enterprise.Key) (v (Slice Int))) (! (= (lockSum (store s k v))
+//@    (ite ((_ is kLocked) k) (+ (- (lockSum s) (ite (sl.nil (select s k)) 0 (Amt (enterprise.LockedUnd.Amount (unmarshal.enterprise.LockedUnd (select s k))))))
+//@                              (ite (sl.nil v) 0 (Amt (enterprise.LockedUnd.Amount (unmarshal.enterprise.LockedUnd v))))) (lockSum s)))
+//@    :pattern ((lockSum (store s k v))))))
+//@ (assert (forall ((s (Array enterprise.Key (Slice Int))) (k enterprise.Key) (v (Slice Int))) (! (= (spentSum (store s k v))
+//@    (ite ((_ is kSpent) k) (+ (- (spentSum s) (ite (sl.nil (select s k)) 0 (Amt (enterprise.SpentEFUND.Amount (unmarshal.enterprise.SpentEFUND (select s k))))))
+//@                             (ite (sl.nil v) 0 (Amt (enterprise.SpentEFUND.Amount (unmarshal.enterprise.SpentEFUND v))))) (spentSum s)))
+//@    :pattern ((spentSum (store s k v))))))
+//@ ; every stored book entry is a non-negative amount in the enterprise denomination, keyed by its owner's address
+//@ (define-fun ENT_BOOKS_WF ((s (Array enterprise.Key (Slice Int)))) Bool
+//@   (and (forall ((a BytesV)) (! (=> (lockedHas s a) (let ((r (lockedRec s a))) (and (not (= (sdk.Coin.Amount (enterprise.LockedUnd.Amount r)) nilInt)) (>= (Amt (enterprise.LockedUnd.Amount r)) 0) (< (Amt (enterprise.LockedUnd.Amount r)) P255) (= (sdk.Coin.Denom (enterprise.LockedUnd.Amount r)) (entDenom s)) (validBech32 (enterprise.LockedUnd.Owner r)) (= (bytesval (addrOf (enterprise.LockedUnd.Owner r))) a)))) :pattern ((select s (kLocked a)))))
+//@        (forall ((a BytesV)) (! (=> (spentHas s a) (let ((r (spentRec s a))) (and (not (= (sdk.Coin.Amount (enterprise.SpentEFUND.Amount r)) nilInt)) (>= (Amt (enterprise.SpentEFUND.Amount r)) 0) (< (Amt (enterprise.SpentEFUND.Amount r)) P255) (= (sdk.Coin.Denom (enterprise.SpentEFUND.Amount r)) (entDenom s)) (validBech32 (enterprise.SpentEFUND.Owner r)) (= (bytesval (addrOf (enterprise.SpentEFUND.Owner r))) a)))) :pattern ((select s (kSpent a)))))
+//@        (=> (not (sl.nil (select s kTotalLocked))) (let ((c (coinOfBytes (select s kTotalLocked)))) (and (not (= (sdk.Coin.Amount c) nilInt)) (>= (Amt c) 0) (< (Amt c) P255) (= (sdk.Coin.Denom c) (entDenom s)))))
+//@        (=> (not (sl.nil (select s kTotalSpent))) (let ((c (coinOfBytes (select s kTotalSpent)))) (and (not (= (sdk.Coin.Amount c) nilInt)) (>= (Amt c) 0) (< (Amt c) P255) (= (sdk.Coin.Denom c) (entDenom s)))))
+//@        (entParamsSet s) (validDenom (entDenom s))))
+//@ ; a single account's locked amount is part of the total (all entries are non-negative)
+//@ (assert (forall ((s (Array enterprise.Key (Slice Int))) (a BytesV)) (! (=> (and (ENT_BOOKS_WF s) (lockedHas s a)) (<= (lockedAmt s a) (lockSum s))) :pattern ((lockSum s) (select s (kLocked a))))))
+//@ ; the books balance (C04): escrow balance == total locked == sum of per-account locked; total spent == sum of per-account spent
+//@ (define-fun ENT_LEDGER ((s (Array enterprise.Key (Slice Int))) (b (Array BytesV (Array Str Int))) (esc BytesV)) Bool
+//@   (and (= (totalLockedAmt s) (lockSum s)) (= (totalSpentAmt s) (spentSum s)) (= (select (select b esc) (entDenom s)) (totalLockedAmt s))))
+//@ end
+
 // ---------------------------------------------------------------- store keys (byte level)
 
 //@ func GetPurchaseOrderIDBytes(purchaseOrderID) (bz)
 //@   props C18
 //@   nopanic
 //@   ensures len(bz) == 8 && bz != nil && be64at(arr(bz), 0, purchaseOrderID)
+//@   abstracts u64dec(bz) == purchaseOrderID
 
 //@ func GetPurchaseOrderIDFromBytes(bz) (id)
 //@   props C18
 //@   requires len(bz) >= 8
 //@   nopanic
-//@   ensures be64at(arr(bz), 0, id)
+//@   ensures be64at(arr(bz), 0, id) && id == u64dec(bz)
 
 //@ func PurchaseOrderKey(id) (key)
 //@   props C18
 //@   nopanic
 //@   ensures len(key) == 9 && key != nil && key[0] == 1 && be64at(arr(key), 1, id)
+//@   abstracts ent_key(key) == kPO(id)
 
 //@ func RaisedQueueStoreKey(id) (key)
 //@   props C18
 //@   nopanic
 //@   ensures len(key) == 9 && key != nil && key[0] == 4 && be64at(arr(key), 1, id)
+//@   abstracts ent_key(key) == kRaised(id)
 
 //@ func AcceptedQueueStoreKey(id) (key)
 //@   props C18
 //@   nopanic
 //@   ensures len(key) == 9 && key != nil && key[0] == 5 && be64at(arr(key), 1, id)
+//@   abstracts ent_key(key) == kAccepted(id)
 
 //@ func LockedUndAddressStoreKey(acc) (key)
 //@   props C18
@@ -38,6 +103,7 @@ package types
 //@   ensures len(key) == 1 + len(acc) && key != nil && key[0] == 2
 //@   ensures forall i int :: {acc[i]} 0 <= i && i < len(acc) ==> key[1+i] == acc[i]
 //@   ensures forall j int :: {key[j]} 1 <= j && j < len(key) ==> key[j] == acc[j-1]
+//@   abstracts ent_key(key) == kLocked(bytesval(acc))
 
 //@ func WhitelistAddressStoreKey(acc) (key)
 //@   props C18
@@ -46,6 +112,7 @@ package types
 //@   ensures len(key) == 1 + len(acc) && key != nil && key[0] == 3
 //@   ensures forall i int :: {acc[i]} 0 <= i && i < len(acc) ==> key[1+i] == acc[i]
 //@   ensures forall j int :: {key[j]} 1 <= j && j < len(key) ==> key[j] == acc[j-1]
+//@   abstracts ent_key(key) == kWhitelist(bytesval(acc))
 
 //@ func SpentEFUNDAddressStoreKey(acc) (key)
 //@   props C18
@@ -54,6 +121,7 @@ package types
 //@   ensures len(key) == 1 + len(acc) && key != nil && key[0] == 6
 //@   ensures forall i int :: {acc[i]} 0 <= i && i < len(acc) ==> key[1+i] == acc[i]
 //@   ensures forall j int :: {key[j]} 1 <= j && j < len(key) ==> key[j] == acc[j-1]
+//@   abstracts ent_key(key) == kSpent(bytesval(acc))
 
 //@ func SplitRaisedQueueKey(key) (id)
 //@   props C18
@@ -204,3 +272,8 @@ package types
 //@   requires validBech32(msg.Signer)
 //@   nopanic
 //@   ensures len(signers) == 1 && signers[0] == addrOf(msg.Signer)
+
+//@ global ParamsKey abstracts ent_key(ParamsKey) == kEParams
+//@ global HighestPurchaseOrderIDKey abstracts ent_key(HighestPurchaseOrderIDKey) == kEHighest
+//@ global TotalSpentEFUNDKey abstracts ent_key(TotalSpentEFUNDKey) == kTotalSpent
+//@ global TotalLockedUndKey abstracts ent_key(TotalLockedUndKey) == kTotalLocked
